@@ -24,9 +24,10 @@ def _(c):
     c.none_raises = True
     c.no_class_inv = True
     c.ghost("$last", OCONN, "no_conn()")
+    c.ghost("$asked", BOOL, "False")
     c.ghost("$dropped", BOOL, "False")
     c.ghost("$rearmed", BOOL, "False")
-    c.call("self_ref", returns=OCONN, ghost={"$last": "result"},
+    c.call("self_ref", returns=OCONN, ghost={"$last": "result", "$asked": "True"},
            note="weakref call: the connection object, or None once it has been garbage collected")
     c.call("time.monotonic", returns=REAL, note="clock")
     c.call("self.close", returns=Opt(Fut(NONE)), raises=[], modifies=CLOSE_MODS,
@@ -44,7 +45,7 @@ def _(c):
         ("assert", "the-next-check-is-this-check-for-this-connection", "a2 == self_ref"),
     ])
     c.ensures_internal("a-live-connection-is-either-dropped-as-idle-or-checked-again",
-                       "implies($last is not None, $dropped != $rearmed)")
+                       "$asked and implies($last is not None, $dropped != $rearmed)")
     c.replay_fn = lambda model, ob=None: {"script": _IDLE_SCRIPT}
 
 
